@@ -2,7 +2,7 @@
    Model: Contr/Blocks.v over TTN/Store.v (tied to /repo by value and checked per instance by
    harness/props/c04.py). *)
 From Coq Require Import List Arith Permutation.
-From PTN Require Import TTN.Store Contr.Blocks Contr.BlocksProofs.
+From PTN Require Import TTN.Store Contr.Blocks Contr.BlocksProofs Contr.Closed Contr.ClosedProofs.
 Import ListNotations.
 
 (* TTNO.as_matrix transposes the contracted operator by evens ++ odds: a permutation of its 2n legs
@@ -40,3 +40,228 @@ Example C04_example :
   = Some ([], 6, 4, 3).
 Proof. vm_compute. reflexivity. Qed.
 Print Assumptions C04_example.
+
+(* ==== the block recursion closes the network: universal theorems (Contr/Closed.v, Contr/ClosedProofs.v) ============== *)
+(* contract_all_but_one_neighbour_block_to_ket: ket legs in neighbouring_nodes order then `rest` (the open leg);
+   every neighbour nb other than `next` has a block with legs (ket wire to nb) :: xs nb.  The loop succeeds for any
+   position of `next`; result legs: the leg to `next`, `rest`, then the blocks' other legs in neighbour order; exactly
+   the wires to the contracted neighbours are bound, nothing is glued *)
+Theorem C04_all_but_one_axes : forall (kt : garr) (kn : node) (next : id) (blocks : list (id * garr))
+    (w : id -> wire) (xs : id -> list wire) (blk : id -> garr) (wj : wire) (rest : list wire) (pre post : list id),
+  neighbouring_nodes kn = pre ++ next :: post ->
+  NoDup (pre ++ next :: post) ->
+  gaxes kt = map w pre ++ wj :: map w post ++ rest ->
+  (forall nb, In nb (pre ++ post) -> aget nb blocks = Some (blk nb) /\ gaxes (blk nb) = w nb :: xs nb) ->
+  exists r, all_but_one_to_ket kt kn next blocks = Some r /\
+    gaxes r = wj :: rest ++ flat_map xs (pre ++ post) /\
+    gatoms r = gatoms kt ++ flat_map (fun nb => gatoms (blk nb)) (pre ++ post) /\
+    gbnd r = rev (map w (pre ++ post)) ++ gbnd kt ++ flat_map (fun nb => gbnd (blk nb)) (pre ++ post) /\
+    gglue r = gglue kt ++ flat_map (fun nb => gglue (blk nb)) (pre ++ post).
+Proof. exact all_but_one_axes. Qed.
+Print Assumptions C04_all_but_one_axes.
+
+(* contract_bra_tensor_ignore_one_leg: the bra node may list the same neighbours in ANY order (independent child
+   orders); the result has the two legs towards `next`, binds the bra wire to every other neighbour and glues
+   exactly (ket open leg, bra open leg) *)
+Theorem C04_bra_to_ket_ignore_axes : forall (bt kb : garr) (bn kn : node) (next : id) (x : id -> wire)
+    (wj o p : wire) (pre post : list id),
+  neighbouring_nodes kn = pre ++ next :: post ->
+  NoDup (pre ++ next :: post) ->
+  Permutation (neighbouring_nodes bn) (pre ++ next :: post) ->
+  gaxes kb = wj :: o :: map x (pre ++ post) ->
+  gaxes bt = map x (neighbouring_nodes bn) ++ [p] ->
+  o <> p ->
+  exists r, bra_to_ket_ignore bt kb bn kn next = Some r /\
+    gaxes r = [wj; x next] /\
+    gatoms r = gatoms kb ++ gatoms bt /\
+    gbnd r = map x (pre ++ post) ++ gbnd kb ++ gbnd bt /\
+    gglue r = (o, p) :: gglue kb ++ gglue bt.
+Proof. exact bra_to_ket_ignore_axes. Qed.
+Print Assumptions C04_bra_to_ket_ignore_axes.
+
+(* the root: contract_all_neighbour_blocks_to_ket and contract_bra_to_ket_and_blocks *)
+Theorem C04_all_to_ket_axes : forall (kt : garr) (kn : node) (blocks : list (id * garr))
+    (w : id -> wire) (xs : id -> list wire) (blk : id -> garr) (rest : list wire),
+  gaxes kt = map w (neighbouring_nodes kn) ++ rest ->
+  (forall nb, In nb (neighbouring_nodes kn) -> aget nb blocks = Some (blk nb) /\ gaxes (blk nb) = w nb :: xs nb) ->
+  exists r, all_to_ket kt kn blocks = Some r /\
+    gaxes r = rest ++ flat_map xs (neighbouring_nodes kn) /\
+    gatoms r = gatoms kt ++ flat_map (fun nb => gatoms (blk nb)) (neighbouring_nodes kn) /\
+    gbnd r = rev (map w (neighbouring_nodes kn)) ++ gbnd kt ++ flat_map (fun nb => gbnd (blk nb)) (neighbouring_nodes kn) /\
+    gglue r = gglue kt ++ flat_map (fun nb => gglue (blk nb)) (neighbouring_nodes kn).
+Proof. exact all_to_ket_axes. Qed.
+Print Assumptions C04_all_to_ket_axes.
+
+Theorem C04_bra_to_ket_all_axes : forall (bt kb : garr) (bn kn : node) (x : id -> wire) (o p : wire),
+  NoDup (neighbouring_nodes kn) ->
+  Permutation (neighbouring_nodes bn) (neighbouring_nodes kn) ->
+  gaxes kb = o :: map x (neighbouring_nodes kn) ->
+  gaxes bt = map x (neighbouring_nodes bn) ++ [p] ->
+  o <> p ->
+  exists r, bra_to_ket_all bt kb bn kn = Some r /\
+    gaxes r = [] /\
+    gatoms r = gatoms kb ++ gatoms bt /\
+    gbnd r = map x (neighbouring_nodes bn) ++ gbnd kb ++ gbnd bt /\
+    gglue r = (o, p) :: gglue kb ++ gglue bt.
+Proof. exact bra_to_ket_all_axes. Qed.
+Print Assumptions C04_bra_to_ket_all_axes.
+
+(* by induction over the tree: every block of the recursion has exactly the two legs towards the parent and is the
+   closed contraction of its subtree (fuel: any number >= the size of the subtree) *)
+Theorem C04_block_two_subtree_closed : forall (ket bra : store) (p : id) (t : rt) (fuel : nat),
+  wf_sub ket bra (Some p) t -> length (rnodes t) <= fuel ->
+  exists g, block_two fuel ket bra (rid t) p = Some g /\
+    gaxes g = [up_wire ket (rid t); up_wire bra (rid t)] /\
+    Permutation (gatoms g) (all_atoms ket bra (rnodes t)) /\
+    Permutation (gbnd g) (edge_wires ket bra (rdesc t) ++ inner_bnd ket bra (rnodes t)) /\
+    Permutation (gglue g) (open_pairs ket bra (rnodes t)).
+Proof. exact block_two_subtree_closed. Qed.
+Print Assumptions C04_block_two_subtree_closed.
+
+(* contract_two_ttns on every consistent pair of states (wf_two: same ids and parent relation, the bra's children in
+   any order at every node, one open leg per node, edge wires consistent, ket and bra open wires different): succeeds,
+   no axis left, atoms = all atoms of both states, bound wires = all edge wires of both (plus wires already bound
+   inside the stored tensors), glued pairs = exactly (ket open leg of n, bra open leg of n) for every node n *)
+Theorem C04_contract_two_ttns_closed : forall (ket bra : store) (t : rt),
+  wf_two ket bra t ->
+  exists g, contract_two_ttns ket bra = Some g /\
+    gaxes g = [] /\
+    Permutation (gatoms g) (all_atoms ket bra (rnodes t)) /\
+    Permutation (gbnd g) (edge_wires ket bra (rdesc t) ++ inner_bnd ket bra (rnodes t)) /\
+    Permutation (gglue g) (open_pairs ket bra (rnodes t)).
+Proof. exact contract_two_ttns_closed. Qed.
+Print Assumptions C04_contract_two_ttns_closed.
+
+(* the same with a decidable hypothesis: whenever the executable checker accepts the two stores *)
+Theorem C04_two_ok_closed : forall (ket bra : store),
+  two_ok ket bra = true ->
+  exists t g, ket_tree ket = Some t /\ contract_two_ttns ket bra = Some g /\
+    gaxes g = [] /\
+    Permutation (gatoms g) (all_atoms ket bra (rnodes t)) /\
+    Permutation (gbnd g) (edge_wires ket bra (rdesc t) ++ inner_bnd ket bra (rnodes t)) /\
+    Permutation (gglue g) (open_pairs ket bra (rnodes t)).
+Proof. exact two_ok_closed. Qed.
+Print Assumptions C04_two_ok_closed.
+
+Theorem C04_wf_two_covers : forall (ket bra : store) (t : rt),
+  wf_two ket bra t -> length (nodes ket) <= length (rnodes t) -> Permutation (rnodes t) (akeys (nodes ket)).
+Proof. exact wf_two_covers. Qed.
+Print Assumptions C04_wf_two_covers.
+
+(* three layers <psi|O|psi>: leaf, inner node and root steps *)
+Theorem C04_sandwich_leaf_axes : forall (kt ot bt : garr) (kn on bn : node) (w y x o oo oi bo : wire),
+  nvirt kn = 1 -> nvirt on = 1 -> nvirt bn = 1 ->
+  gaxes kt = [w; o] -> gaxes ot = [y; oo; oi] -> gaxes bt = [x; bo] ->
+  o <> oi -> oo <> bo ->
+  sandwich_leaf kt ot bt kn on bn =
+  Some {| gaxes := [w; y; x];
+          gatoms := gatoms kt ++ gatoms ot ++ gatoms bt;
+          gbnd := gbnd kt ++ gbnd ot ++ gbnd bt;
+          gglue := (o, oi) :: gglue kt ++ (oo, bo) :: gglue ot ++ gglue bt |}.
+Proof. exact sandwich_leaf_axes. Qed.
+Print Assumptions C04_sandwich_leaf_axes.
+
+Theorem C04_sandwich_subtree_axes : forall (kt ot bt : garr) (kn on bn : node) (next : id) (blocks : list (id * garr))
+    (w y x : id -> wire) (blk : id -> garr) (wj o oo oi bo : wire) (pre post : list id),
+  neighbouring_nodes kn = pre ++ next :: post ->
+  NoDup (pre ++ next :: post) ->
+  Permutation (neighbouring_nodes on) (pre ++ next :: post) ->
+  Permutation (neighbouring_nodes bn) (pre ++ next :: post) ->
+  gaxes kt = map w pre ++ wj :: map w post ++ [o] ->
+  gaxes ot = map y (neighbouring_nodes on) ++ [oo; oi] ->
+  gaxes bt = map x (neighbouring_nodes bn) ++ [bo] ->
+  (forall nb, In nb (pre ++ post) -> aget nb blocks = Some (blk nb) /\ gaxes (blk nb) = [w nb; y nb; x nb]) ->
+  o <> oi -> oo <> bo ->
+  exists r, sandwich_subtree kt ot bt kn on bn next blocks = Some r /\
+    gaxes r = [wj; y next; x next] /\
+    gatoms r = ((gatoms kt ++ flat_map (fun nb => gatoms (blk nb)) (pre ++ post)) ++ gatoms ot) ++ gatoms bt /\
+    gbnd r = map x (pre ++ post) ++
+             (map y (pre ++ post) ++
+              (rev (map w (pre ++ post)) ++ gbnd kt ++ flat_map (fun nb => gbnd (blk nb)) (pre ++ post)) ++ gbnd ot) ++ gbnd bt /\
+    gglue r = (oo, bo) :: ((o, oi) :: (gglue kt ++ flat_map (fun nb => gglue (blk nb)) (pre ++ post)) ++ gglue ot) ++ gglue bt.
+Proof. exact sandwich_subtree_axes. Qed.
+Print Assumptions C04_sandwich_subtree_axes.
+
+Theorem C04_root_three_axes : forall (ckt kt ot : garr) (kn on : node) (blocks : list (id * garr))
+    (w y x : id -> wire) (blk : id -> garr) (o oo oi bo : wire),
+  NoDup (neighbouring_nodes kn) ->
+  Permutation (neighbouring_nodes on) (neighbouring_nodes kn) ->
+  gaxes kt = map w (neighbouring_nodes kn) ++ [o] ->
+  gaxes ot = map y (neighbouring_nodes on) ++ [oo; oi] ->
+  gaxes ckt = map x (neighbouring_nodes kn) ++ [bo] ->
+  (forall nb, In nb (neighbouring_nodes kn) -> aget nb blocks = Some (blk nb) /\ gaxes (blk nb) = [w nb; y nb; x nb]) ->
+  o <> oi -> bo <> oo ->
+  exists r, root_three ckt kt ot kn on blocks = Some r /\
+    gaxes r = [] /\
+    gatoms r = gatoms ckt ++ ((gatoms kt ++ flat_map (fun nb => gatoms (blk nb)) (neighbouring_nodes kn)) ++ gatoms ot) /\
+    gbnd r = map x (neighbouring_nodes kn) ++ gbnd ckt ++
+             (map y (neighbouring_nodes kn) ++
+              (rev (map w (neighbouring_nodes kn)) ++ gbnd kt ++ flat_map (fun nb => gbnd (blk nb)) (neighbouring_nodes kn)) ++ gbnd ot) /\
+    gglue r = (bo, oo) :: gglue ckt ++
+              ((o, oi) :: (gglue kt ++ flat_map (fun nb => gglue (blk nb)) (neighbouring_nodes kn)) ++ gglue ot).
+Proof. exact root_three_axes. Qed.
+Print Assumptions C04_root_three_axes.
+
+(* expectation_value's root step is root_three applied to the conjugated root tensor *)
+Theorem C04_expectation_value_root : forall (woff aoff : nat) (ket op : store) (r : id) (kn on : node) (kt ot : garr),
+  root ket = Some r -> root op = Some r ->
+  aget r (nodes ket) = Some kn -> aget r (nodes op) = Some on -> tensor_of ket r = Some kt -> tensor_of op r = Some ot ->
+  expectation_value woff aoff ket op =
+  match all_some (map (fun c => option_map (fun b => (c, b)) (block_three (length (nodes ket)) woff aoff ket op c r)) (children kn)) with
+  | None => None
+  | Some blocks => root_three (conj_arr woff aoff kt) kt ot kn on blocks
+  end.
+Proof. exact expectation_value_root. Qed.
+Print Assumptions C04_expectation_value_root.
+
+Theorem C04_block_three_subtree_closed : forall (woff aoff : nat) (ket op : store) (p : id) (t : rt) (fuel : nat),
+  wf_sub3 woff ket op (Some p) t -> length (rnodes t) <= fuel ->
+  exists g, block_three fuel woff aoff ket op (rid t) p = Some g /\
+    gaxes g = [up_wire ket (rid t); up_wire op (rid t); woff + up_wire ket (rid t)] /\
+    Permutation (gatoms g) (all_atoms3 aoff ket op (rnodes t)) /\
+    Permutation (gbnd g) (edge_wires3 woff ket op (rdesc t) ++ inner_bnd3 woff ket op (rnodes t)) /\
+    Permutation (gglue g) (open_pairs3 woff ket op (rnodes t)).
+Proof. exact block_three_subtree_closed. Qed.
+Print Assumptions C04_block_three_subtree_closed.
+
+(* expectation_value on every consistent (state, operator) pair: the closed three-layer network; at every node the
+   ket's open leg is glued to the operator's input leg and the operator's output leg to the conjugate copy's open leg *)
+Theorem C04_expectation_value_closed : forall (woff aoff : nat) (ket op : store) (t : rt),
+  wf_three woff ket op t ->
+  exists g, expectation_value woff aoff ket op = Some g /\
+    gaxes g = [] /\
+    Permutation (gatoms g) (all_atoms3 aoff ket op (rnodes t)) /\
+    Permutation (gbnd g) (edge_wires3 woff ket op (rdesc t) ++ inner_bnd3 woff ket op (rnodes t)) /\
+    Permutation (gglue g)
+      ([(open_wire ket (rid t), in_wire op (rid t)); (woff + open_wire ket (rid t), out_wire op (rid t))]
+       ++ open_pairs3 woff ket op (rdesc t)).
+Proof. exact expectation_value_closed. Qed.
+Print Assumptions C04_expectation_value_closed.
+
+Theorem C04_three_ok_closed : forall (woff aoff : nat) (ket op : store),
+  three_ok woff ket op = true ->
+  exists t g, ket_tree ket = Some t /\ expectation_value woff aoff ket op = Some g /\
+    gaxes g = [] /\
+    Permutation (gatoms g) (all_atoms3 aoff ket op (rnodes t)) /\
+    Permutation (gbnd g) (edge_wires3 woff ket op (rdesc t) ++ inner_bnd3 woff ket op (rnodes t)) /\
+    Permutation (gglue g)
+      ([(open_wire ket (rid t), in_wire op (rid t)); (woff + open_wire ket (rid t), out_wire op (rid t))]
+       ++ open_pairs3 woff ket op (rdesc t)).
+Proof. exact three_ok_closed. Qed.
+Print Assumptions C04_three_ok_closed.
+
+(* non-vacuity of the hypotheses: the checker accepts a 3-node pair whose bra has the opposite child order, and a
+   4-node (state, operator) pair whose operator lists the root's children in the opposite order *)
+Example C04_two_ok_example :
+  let kops := [AddRoot 0 [2; 2; 3]; AddChild 1 [2; 2] 0 0 0; AddChild 2 [3; 2] 0 0 2] in
+  let bops := [AddRoot 0 [3; 2; 2]; AddChild 2 [2; 3] 1 0 0; AddChild 1 [2; 2] 1 0 2] in
+  two_ok (fst (run empty_store kops)) (fst (run (store_at 100 10) bops)) = true.
+Proof. vm_compute. reflexivity. Qed.
+Print Assumptions C04_two_ok_example.
+
+Example C04_three_ok_example :
+  let kops := [AddRoot 0 [2; 2; 3]; AddChild 1 [2; 2; 2] 0 0 0; AddChild 2 [3; 2] 0 0 2; AddChild 3 [2; 2] 0 1 1] in
+  let oops := [AddRoot 0 [3; 2; 2; 2]; AddChild 2 [3; 2; 2] 0 0 0; AddChild 1 [2; 2; 2; 2] 0 0 1; AddChild 3 [2; 2; 2] 0 1 1] in
+  three_ok 2000 (fst (run empty_store kops)) (fst (run (store_at 1000 100) oops)) = true.
+Proof. vm_compute. reflexivity. Qed.
+Print Assumptions C04_three_ok_example.
